@@ -269,3 +269,15 @@ package gateway
 //@   before Swamp.DeleteTreasure [C06:record_guard_not_held_when_deleting_the_record] calls("Treasure.StartTreasureGuard") - old(calls("Treasure.StartTreasureGuard")) == calls("Treasure.ReleaseTreasureGuard") - old(calls("Treasure.ReleaseTreasureGuard"))
 //@   ensures[guard_released] calls("Treasure.StartTreasureGuard") - old(calls("Treasure.StartTreasureGuard")) == calls("Treasure.ReleaseTreasureGuard") - old(calls("Treasure.ReleaseTreasureGuard"))
 //@   ensures[saved_under_the_guard] calls("Treasure.Uint32SliceDelete") > old(calls("Treasure.Uint32SliceDelete")) ==> calls("Treasure.Save") == old(calls("Treasure.Save")) + 1 && calledwith("Treasure.Save", 1, lastret("Treasure.StartTreasureGuard"))
+
+// Uint32SlicePush, per key (properties C10, C09): the record is changed and saved while this request holds
+// the record's guard (the same guard for both), which is released afterwards.
+//@ trusted func (github.com/hydraide/hydraide/app/core/hydra/swamp.Swamp).CreateTreasure(s, key) (t)
+//@   ensures t != nil
+//@ trusted func (github.com/hydraide/hydraide/app/core/hydra/swamp/treasure.Treasure).Uint32SlicePush(t, values) (err)
+//@ func (Gateway).Uint32SlicePush$1()
+//@   property C10
+//@   modifies *
+//@   before Treasure.Uint32SlicePush [record_changed_under_its_guard] calls("Treasure.StartTreasureGuard") - old(calls("Treasure.StartTreasureGuard")) == calls("Treasure.ReleaseTreasureGuard") - old(calls("Treasure.ReleaseTreasureGuard")) + 1 && calledwith("Treasure.StartTreasureGuard", 0, arg0)
+//@   before Treasure.Save [saved_under_the_same_guard] calls("Treasure.StartTreasureGuard") - old(calls("Treasure.StartTreasureGuard")) == calls("Treasure.ReleaseTreasureGuard") - old(calls("Treasure.ReleaseTreasureGuard")) + 1 && arg1 == lastret("Treasure.StartTreasureGuard") && calls("Treasure.Uint32SlicePush") == old(calls("Treasure.Uint32SlicePush")) + 1
+//@   ensures[guard_released] calls("Treasure.StartTreasureGuard") - old(calls("Treasure.StartTreasureGuard")) == calls("Treasure.ReleaseTreasureGuard") - old(calls("Treasure.ReleaseTreasureGuard"))
